@@ -78,6 +78,8 @@ type Program struct {
 	Arm  string
 	Seed uint64
 	Ops  []Op
+	// Lost, when set, makes the case a "lost search replace" experiment on the cosmosdb arm (c13_lostsearch_test.go).
+	Lost *LostSearch `json:",omitempty"`
 }
 
 const c13MaxPlans = 4
@@ -102,6 +104,10 @@ func genArm(t *rapid.T) string {
 
 func genProgram(t *rapid.T) Program {
 	p := Program{Arm: genArm(t), Seed: rapid.Uint64().Draw(t, "seed")}
+	if p.Arm == store.ArmCosmosFake && store.Uniform(t, 4, "lostsearch") == 3 {
+		p.Lost = genLostSearch(t)
+		return p
+	}
 	type gslot struct {
 		spec *store.PlanSpec
 		live bool
@@ -316,6 +322,9 @@ func callUpdate(ctx context.Context, v storage.Vault, obj workflow.Object) error
 }
 
 func checkProgram(c Program) (res vprop.Result) {
+	if c.Lost != nil {
+		return checkLostSearch(c)
+	}
 	arm := c.Arm
 	res.Label("arm:" + arm)
 	res.Label("ops:" + sizeClass(len(c.Ops), 5, 15, 40))
